@@ -375,6 +375,7 @@ type runCfg struct {
 	Label     string `json:"label"`
 	Final     bool   `json:"finalonly"` // final_blocks_only request; the source then emits bare irreversible steps
 	Out       string `json:"outmod"`    // output module ("out" unless stated)
+	Plain     bool   `json:"plain"`     // run without per-request hooks (several requests at once on one cache)
 	WalkHold  int    `json:"walkhold"`  // a walker attempt that found no file is reported after this many scheduler messages
 	MergeHold int    `json:"mergehold"` // merges wait for this many scheduler messages (0 = as fast as they go)
 }
@@ -649,8 +650,10 @@ func runTier1(env *sysEnv, cfg runCfg, cursor string, traceSched bool) (obs runO
 		}
 		return nil
 	}
-	// scheduler hooks: skip the 4 s ramp-up, trace every Update
-	schedMu.Lock()
+	// scheduler hooks: skip the 4 s ramp-up, trace every Update (not in "plain" runs: several requests at once, hooks neutral)
+	if !cfg.Plain {
+		schedMu.Lock()
+	}
 	rows := func(s *scheduler.Scheduler) []string {
 		out := []string{}
 		for _, l := range strings.Split(strings.TrimSpace(s.Stages.StatesString()), "\n") {
@@ -667,63 +670,65 @@ func runTier1(env *sysEnv, cfg runCfg, cursor string, traceSched bool) (obs runO
 		f, c, l := s.ExecOutWalker.Progress()
 		return map[string]any{"has": true, "first": f, "cur": c, "last": l, "working": s.ExecOutWalker.IsWorking()}
 	}
-	orchestrator.VerifOnScheduler = func(s *scheduler.Scheduler) {
-		s.WorkerPool.VerifSkipRampup()
-		in0 := s.Stages.VerifInternals()
-		obs.Stages = stageView{Kinds: append([]string{}, in0.Kinds...), First: append([]int{}, in0.First...), Last: append([]int{}, in0.Last...)}
-		if traceSched {
-			obs.Sched = append(obs.Sched, map[string]any{"ev": "sinit", "internals": s.Stages.VerifInternals(), "rows": rows(s), "walker": walkerOf(s),
-				"workers": len(s.WorkerPool.VerifStates())})
-		}
-	}
-	// merge gate: a merge command waits until the scheduler has handled cfg.MergeHold more messages (or 40 ms have passed:
-	// nothing else may be in flight), so that merges complete late relative to job scheduling - a harness-chosen order
-	var updates atomic.Int64
-	if cfg.MergeHold > 0 {
-		hold := int64(cfg.MergeHold)
-		stage.VerifMergeGate = func(st, sg int) {
-			start := updates.Load()
-			deadline := time.Now().Add(40 * time.Millisecond)
-			for updates.Load() < start+hold && time.Now().Before(deadline) {
-				time.Sleep(200 * time.Microsecond)
+	if !cfg.Plain {
+		orchestrator.VerifOnScheduler = func(s *scheduler.Scheduler) {
+			s.WorkerPool.VerifSkipRampup()
+			in0 := s.Stages.VerifInternals()
+			obs.Stages = stageView{Kinds: append([]string{}, in0.Kinds...), First: append([]int{}, in0.First...), Last: append([]int{}, in0.Last...)}
+			if traceSched {
+				obs.Sched = append(obs.Sched, map[string]any{"ev": "sinit", "internals": s.Stages.VerifInternals(), "rows": rows(s), "walker": walkerOf(s),
+					"workers": len(s.WorkerPool.VerifStates())})
 			}
 		}
-	} else {
-		stage.VerifMergeGate = nil
-	}
-	// walker gate: a download attempt that found no file stays "in flight" until the scheduler has handled cfg.WalkHold more
-	// messages (or 60 ms passed) - e.g. the success of the very job that writes the file
-	if cfg.WalkHold > 0 {
-		hold := int64(cfg.WalkHold)
-		orchexecout.VerifNotPresentGate = func() {
-			start := updates.Load()
-			deadline := time.Now().Add(60 * time.Millisecond)
-			for updates.Load() < start+hold && time.Now().Before(deadline) {
-				time.Sleep(200 * time.Microsecond)
-			}
-		}
-	} else {
-		orchexecout.VerifNotPresentGate = nil
-	}
-	if !traceSched {
-		scheduler.VerifTrace = func(s *scheduler.Scheduler, msg loop.Msg) { updates.Add(1) }
-	}
-	if traceSched {
-		seq := 0
-		scheduler.VerifTrace = func(s *scheduler.Scheduler, msg loop.Msg) {
-			seq++
-			updates.Add(1)
-			o, st := s.VerifFlags()
-			busy := 0
-			for _, w := range s.WorkerPool.VerifStates() {
-				if w == 1 {
-					busy++
+		// merge gate: a merge command waits until the scheduler has handled cfg.MergeHold more messages (or 40 ms have passed:
+		// nothing else may be in flight), so that merges complete late relative to job scheduling - a harness-chosen order
+		var updates atomic.Int64
+		if cfg.MergeHold > 0 {
+			hold := int64(cfg.MergeHold)
+			stage.VerifMergeGate = func(st, sg int) {
+				start := updates.Load()
+				deadline := time.Now().Add(40 * time.Millisecond)
+				for updates.Load() < start+hold && time.Now().Before(deadline) {
+					time.Sleep(200 * time.Microsecond)
 				}
 			}
-			seg, stage := msgUnit(msg)
-			in := s.Stages.VerifInternals()
-			obs.Sched = append(obs.Sched, map[string]any{"ev": "supd", "seq": seq, "t": msgType(msg), "seg": seg, "stage": stage, "rows": rows(s),
-				"segDone": in.SegmentCompleted, "shadowable": in.ShadowableSegment, "busy": busy, "walker": walkerOf(s), "outDone": o, "storesDone": st})
+		} else {
+			stage.VerifMergeGate = nil
+		}
+		// walker gate: a download attempt that found no file stays "in flight" until the scheduler has handled cfg.WalkHold more
+		// messages (or 60 ms passed) - e.g. the success of the very job that writes the file
+		if cfg.WalkHold > 0 {
+			hold := int64(cfg.WalkHold)
+			orchexecout.VerifNotPresentGate = func() {
+				start := updates.Load()
+				deadline := time.Now().Add(60 * time.Millisecond)
+				for updates.Load() < start+hold && time.Now().Before(deadline) {
+					time.Sleep(200 * time.Microsecond)
+				}
+			}
+		} else {
+			orchexecout.VerifNotPresentGate = nil
+		}
+		if !traceSched {
+			scheduler.VerifTrace = func(s *scheduler.Scheduler, msg loop.Msg) { updates.Add(1) }
+		}
+		if traceSched {
+			seq := 0
+			scheduler.VerifTrace = func(s *scheduler.Scheduler, msg loop.Msg) {
+				seq++
+				updates.Add(1)
+				o, st := s.VerifFlags()
+				busy := 0
+				for _, w := range s.WorkerPool.VerifStates() {
+					if w == 1 {
+						busy++
+					}
+				}
+				seg, stage := msgUnit(msg)
+				in := s.Stages.VerifInternals()
+				obs.Sched = append(obs.Sched, map[string]any{"ev": "supd", "seq": seq, "t": msgType(msg), "seg": seg, "stage": stage, "rows": rows(s),
+					"segDone": in.SegmentCompleted, "shadowable": in.ShadowableSegment, "busy": busy, "walker": walkerOf(s), "outDone": o, "storesDone": st})
+			}
 		}
 	}
 	ctx := context.Background()
@@ -737,10 +742,12 @@ func runTier1(env *sysEnv, cfg runCfg, cursor string, traceSched bool) (obs runO
 	ctx, cancel := context.WithTimeout(ctx, budget)
 	obs.Panic = guard(func() { err = svc.TestBlocks(ctx, false, req, collect) })
 	cancel()
-	scheduler.VerifTrace = nil
-	stage.VerifMergeGate = nil
-	orchexecout.VerifNotPresentGate = nil
-	schedMu.Unlock()
+	if !cfg.Plain {
+		scheduler.VerifTrace = nil
+		stage.VerifMergeGate = nil
+		orchexecout.VerifNotPresentGate = nil
+		schedMu.Unlock()
+	}
 	if err != nil {
 		obs.Err = err.Error()
 		obs.Code = connect.CodeOf(service.VerifToConnectError(context.Background(), err)).String()
@@ -1056,6 +1063,47 @@ func runSystem(a *args) error {
 			for k := 0; k < 3; k++ {
 				runForks(a, r, env, seg)
 			}
+		case "concurrent":
+			// two (or three) requests AT THE SAME TIME on one cache directory: same program, overlapping ranges, cold or warm
+			identical := r.Intn(2) == 0 // the same production request several times at once on a cold cache
+			if !identical && r.Intn(2) == 0 {
+				c0 := randCfg(r, prog, seg)
+				c0.Prod, c0.Label = true, "concurrent/warmup"
+				emitRun(a, env, c0, "", false)
+			}
+			schedMu.Lock()
+			orchestrator.VerifOnScheduler = func(s *scheduler.Scheduler) { s.WorkerPool.VerifSkipRampup() }
+			scheduler.VerifTrace, stage.VerifMergeGate, orchexecout.VerifNotPresentGate = nil, nil, nil
+			nreq := 2 + r.Intn(2)
+			cfgs := make([]runCfg, nreq)
+			before := projectFiles(env, listFiles(env.dir))
+			for k := range cfgs {
+				cfgs[k] = randCfg(r, prog, seg)
+				cfgs[k].Prod = k == 0 || r.Intn(3) != 0
+				cfgs[k].Plain, cfgs[k].MergeHold, cfgs[k].WalkHold = true, 0, 0
+				cfgs[k].Label = fmt.Sprintf("concurrent/%d", k)
+				cfgs[k].Out = "out"
+				if identical {
+					cfgs[k].Prod = true
+				}
+				if k > 0 && (identical || r.Intn(2) == 0) { // the same range as the first one
+					cfgs[k].Start, cfgs[k].Stop, cfgs[k].LibOK, cfgs[k].Lib = cfgs[0].Start, cfgs[0].Stop, cfgs[0].LibOK, cfgs[0].Lib
+				}
+			}
+			obss := make([]runObs, nreq)
+			var wg sync.WaitGroup
+			for k := range cfgs {
+				wg.Add(1)
+				go func(k int) {
+					defer wg.Done()
+					obss[k] = runTier1(env, cfgs[k], "", false)
+				}(k)
+			}
+			wg.Wait()
+			schedMu.Unlock()
+			for k := range cfgs {
+				emitObs(a, env, cfgs[k], obss[k], before)
+			}
 		case "resume":
 			cfg := randCfg(r, prog, seg)
 			cfg.Label = "resume/original"
@@ -1160,6 +1208,18 @@ func projectFiles(env *sysEnv, files []string) []fileRec {
 		out = append(out, rec)
 	}
 	return out
+}
+
+// emitObs logs a run that was executed elsewhere (concurrent requests)
+func emitObs(a *args, env *sysEnv, cfg runCfg, obs runObs, before []fileRec) {
+	nd := 0
+	for _, x := range obs.Resp {
+		if x.Kind == "data" {
+			nd++
+		}
+	}
+	obs.Sched = []map[string]any{}
+	a.emitNT(map[string]any{"ev": "run", "cfg": cfg, "obs": obs, "filesBefore": before, "failAt": -1}, nd > 1)
 }
 
 func emitRun(a *args, env *sysEnv, cfg runCfg, cursor string, traceSched bool) runObs {
